@@ -100,9 +100,10 @@ def body(c, d, R, S, por):
 def contracts(tier):
     cfgs = [(1, 1), (3, 2), (4, 4), (5, 8), (1, 2), (2, 3), (3, 9), (7, 3)]
     if tier != "quick":
-        cfgs += [(r, s) for r in range(1, 10) for s in range(1, 19) if (r, s) not in cfgs] + [(16, 17), (17, 16), (31, 33), (100, 300), (600, 120)]
+        cfgs += [(r, s) for r in (1, 2, 3, 4, 5, 8, 9) for s in (1, 2, 3, 4, 5, 7, 8, 9, 16, 17) if (r, s) not in cfgs] + \
+                [(16, 17), (17, 16), (31, 33), (100, 300), (600, 120)]
     for r, s in cfgs:
-        for por in ((True, False) if (tier != "quick" or (r, s) in ((3, 2), (2, 3))) else (True,)):
+        for por in ((True, False) if (r, s) in ((3, 2), (2, 3), (5, 8), (1, 1), (16, 17), (4, 9)) else (True,)):
             yield ("PHYResetController", f"R{r}_S{s}_{'por' if por else 'nopor'}", make(r, s, por))
     yield ("PHYResetController", "default_60MHz_2us_2us_por", make_default(True))
     if tier != "quick":
